@@ -137,7 +137,9 @@ def impl(case):
     off = case.get("label_offset", 0) if case["mapper"] != "array" else 0      # large, close-valued float labels (slice ids like 301002)
     for lab0, ax, bx, ay, by in case["sel"]:
         lab = lab0 + off
-        if nout == 1:   # transforms with a single output
+        if nout == 3:   # more outputs than inputs (x, y) -> (a, b, a): the IFU case (x, y) -> (ra, dec, lambda)
+            sel[lab] = ((models.Scale(float(C.w2q(ax))) | models.Shift(float(C.w2q(bx)))) & (models.Scale(float(C.w2q(ay))) | models.Shift(float(C.w2q(by))))) | models.Mapping((0, 1, 0))
+        elif nout == 1:   # transforms with a single output
             sel[lab] = models.Mapping((0,), n_inputs=2) | models.Scale(float(C.w2q(ax))) | models.Shift(float(C.w2q(bx)))
         else:
             sel[lab] = (models.Scale(float(C.w2q(ax))) | models.Shift(float(C.w2q(bx)))) & (models.Scale(float(C.w2q(ay))) | models.Shift(float(C.w2q(by))))
@@ -150,7 +152,7 @@ def impl(case):
         tab = models.Tabular1D(points=np.arange(len(case["xlabels"]), dtype=float), lookup_table=np.array(case["xlabels"], dtype=float) + off,
                                method="nearest", bounds_error=False, fill_value=np.nan)
         lm = selector.LabelMapper(("x", "y"), tab, inputs_mapping=models.Mapping((0,), n_inputs=2))
-    rs = selector.RegionsSelector(("x", "y"), ("a", "b")[:nout], selector=sel, label_mapper=lm, undefined_transform_value=undef_arg)
+    rs = selector.RegionsSelector(("x", "y"), ("a", "b", "c")[:nout], selector=sel, label_mapper=lm, undefined_transform_value=undef_arg)
     pts = case["pts"]
     shape = tuple(case["shape"])
     xs = np.array([p[0] for p in pts], dtype=float).reshape(shape)
@@ -188,7 +190,21 @@ def impl(case):
         except Exception as e:
             si.append(_err(e))
     res["set_input"] = si
+    # labels that are not whole numbers are nobody's: never the neighbouring region's transform
+    sf = []
+    for lab in (1.5, 2.5, 2.999, 3.7, float("nan")):
+        try:
+            t = rs.set_input(lab + off)
+            sf.append("returned the transform of %s" % [k for k, v in sel.items() if v is t])
+        except Exception as e:
+            sf.append(_err(e))
+    res["set_input_frac"] = sf
     return res
+
+
+def _expand(v, nout):
+    """the model's / the expectation's two outputs as the case's 1, 2 or 3 (the third repeats the first)"""
+    return list(v[:1]) if nout == 1 else (list(v) if nout == 2 else list(v) + [v[0]])
 
 
 def _c(v, undef):
@@ -276,15 +292,18 @@ def oracle(case, res):
     for (x, y), lab, o, p in zip(case["pts"], labels, res["out"], res["per"]):
         if lab != 0 and lab in table:
             ax, bx, ay, by = [C.w2q(v) for v in table[lab]]
-            want = [C.q2w(ax * Fraction(x) + bx), C.q2w(ay * Fraction(y) + by)][:case.get("nout", 2)]
+            want = _expand([C.q2w(ax * Fraction(x) + bx), C.q2w(ay * Fraction(y) + by)], case.get("nout", 2))
         else:
-            want = ["undef", "undef"][:case.get("nout", 2)]
+            want = _expand(["undef", "undef"], case.get("nout", 2))
         if o != want:
             out.append(("selector", "point (%s,%s) has label %s: expected outputs %s, array call gives %s" % (x, y, lab, want, o)))
         if p != want:
             out.append(("selector_scalar", "point (%s,%s) has label %s: expected outputs %s, scalar call gives %s" % (x, y, lab, want, p)))
     if res["out_shape"] != [list(case["shape"])] * case.get("nout", 2):
         out.append(("selector_shape", "input shape %s, output shapes %s" % (case["shape"], res["out_shape"])))
+    for lab, r in zip((1.5, 2.5, 2.999, 3.7, "nan"), res.get("set_input_frac", [])):
+        if r != "valueErr":
+            out.append(("set_input", "set_input(%s): %s (no region has that label; registered: %s)" % (lab, r, sorted(table))))
     for lab, r in zip(case["set_input"], res["set_input"]):
         if (lab in table) != (r == "same") or (lab not in table and r != "valueErr"):
             out.append(("set_input", "set_input(%s) -> %s (registered: %s)" % (lab, r, lab in table)))
@@ -337,7 +356,7 @@ def compare(case, res, resp):
         if res.get("labels") != resp["ok"]:
             return "dict labels impl %s model %s (keys %s xs %s)" % (res.get("labels"), resp["ok"], case["keys"], case["xs"])
         return None
-    mo = [(["undef", "undef"] if v == "undef" else v)[:case.get("nout", 2)] for v in resp["ok"]]
+    mo = [_expand(["undef", "undef"] if v == "undef" else v, case.get("nout", 2)) for v in resp["ok"]]
     if res["out"] != mo:
         return "selector outputs impl %s model %s" % (res["out"], mo)
     if res.get("labels") != _expected_labels(case):
@@ -451,6 +470,8 @@ def gen(rng, tier):
         case["layout"] = rng.choice(["C", "C", "F", "T"])
         if rng.random() < 0.25:
             case["nout"] = 1
+        elif _ % 5 == 3:
+            case["nout"] = 3
         if rng.random() < 0.25:
             case["undef"], case["undef_int"] = -100.0, True
             # ... which only shows when the region transforms return fractional values
